@@ -313,19 +313,18 @@ Definition fm_view (e : senv val) (m : ent) : view := {|
                    | None => None
                    end |}.
 
-Fixpoint is_loop (ks : list str) (e : senv val) (me : env val) (nds : list bool) (steps : list (rop * obs)) : bool :=
+(* The property promises the same key set with the same values, not an order: the specification
+   side is compared modulo permutation everywhere (the order fidelity of the model is c13_im's business). *)
+Fixpoint is_loop (ks : list str) (e : senv val) (steps : list (rop * obs)) : bool :=
   match steps with
   | [] => true
   | (r, o) :: rest =>
       let res := sstep val e (to_op r) in
-      (* the order taint is a property of the representation; it is taken from the model run *)
-      let mres := step val me (to_op r) in
-      let nd := nd_step nds r mres in
       (match res with
        | None => match o with ObErr => true | _ => false end
-       | Some m => check_view nd (nd_at nds) ks (fm_view (e ++ [res]) m) o
+       | Some m => check_view true (fun _ => true) ks (fm_view (e ++ [res]) m) o
        end)
-      && is_loop ks (e ++ [res]) (me ++ [mres]) (nds ++ [nd]) rest
+      && is_loop ks (e ++ [res]) rest
   end.
 
-Definition c13_is (c : c13_case) : bool := is_loop (snd (fst c)) [] [] [] (snd c).
+Definition c13_is (c : c13_case) : bool := is_loop (snd (fst c)) [] (snd c).
